@@ -1973,3 +1973,10 @@ package mpb
 //@   loop 1   invariant sent(p.operateState) == old(sent(p.operateState)) + 1 && fnof(lastSent(p.operateState)) == fn("(*Progress).traverseBars$1") && !closed(drop)
 //@ functype (*Progress).traverseBars.cb
 //@   modifies recvd()
+
+// the early-refresh helper (a goroutine of its own, started when a bar completes under auto refresh):
+// it asks for frames only when no other bar is running, and stops when the bar's context ends
+//@ func (*Bar).tryEarlyRefresh
+//@   props    C02 C04
+//@   requires b != nil
+//@   ensures  probed: called("(*Progress).traverseBars") == old(called("(*Progress).traverseBars")) + 1 && calledWith("(*Progress).traverseBars", 0) == b.container && fnof(calledWith("(*Progress).traverseBars", 1)) == fn("(*Bar).tryEarlyRefresh$1")
